@@ -46,7 +46,8 @@ Definition kind_of (i : Z) (o : op) : kind :=
      6 nothing but a decision or a reset of this link releases the pull
      7 a reset of the link (soft or full) leaves no delivery proof behind: "has never produced
        delivery proof" is judged since the link's last reset
-     8 a cumulative SRT ACK does not move the proof stamp (see [cum_clause]) *)
+     8 the proof stamp moves only on an earned SRTLA ACK, a keepalive echo or a reset of this link
+       (see [cum_clause]) *)
 Definition mon_step (rs : option Z) (k : kind) (pre post : link) : option Z * N :=
   let lat0 := latched pre in
   let lat1 := latched post in
@@ -74,9 +75,17 @@ Definition mon_step (rs : option Z) (k : kind) (pre post : link) : option Z * N 
                                  (6%N, negb (g_pulled (lg pre)) || g_pulled (lg post))])
   end.
 
-(** clause 8: a cumulative SRT ACK (it arrives via any link and only drains the backlog) is not
-    delivery proof of THIS link: the proof stamp does not move on it *)
-Definition cum_on (i : Z) (o : op) : bool := match o with OSrtAck j _ => j =? i | _ => false end.
+(** clause 8: the delivery-proof stamp of a link moves only on an earned SRTLA ACK for it, on a
+    keepalive echo on it, or when the link is reset (the harness's foreign-field setter aside): a
+    cumulative SRT ACK, which arrives via any link and only drains the backlog, any other inbound
+    datagram, a registration do not move it *)
+Definition cum_on (i : Z) (o : op) : bool :=
+  match o with
+  | OSrtlaAck j known _ => negb ((j =? i) && known)
+  | OEcho j _ _ _ | OReset j | OForeign j _ => negb (j =? i)
+  | OSelect _ _ _ _ => false     (* a routing decision leaves all accounting untouched: C12's subject *)
+  | _ => true
+  end.
 Definition cum_clause (i : nat) (o : op) (pre post : link) (cl : N) : N :=
   if (cl =? 0)%N && cum_on (Z.of_nat i) o && negb (a_proof (la post) =? a_proof (la pre)) then 8%N else cl.
 
